@@ -23,7 +23,18 @@ Dropped / simplified w.r.t. DESIGN.md: tristate_filter evaluation is not exercis
 statement); bare "( ... )" groups are not generated for RESTRICT / SRC_URI (ebuild_src parses
 them with operators={} which rejects them; the statement does not speak about it); an emptied
 group *directly inside* || ^^ ?? has two defensible readings (dropped vs. satisfied member) -
-points where they differ are counted (class ambiguous_points) and not judged.
+points where they differ are counted (counter ambiguous_points) and not judged.  Empty groups
+"( )" are not generated and a corruption that only produces one is not judged (the statement
+names unbalanced parentheses and dangling operators).
+
+Counters in the evidence: flagset_evaluations (evaluate_depset calls), sat_points (token sets
+compared), anyof_emptied_points ((string, F) pairs where an any-of loses all members).
+
+Findings on the unchanged tree (2fa9c05), see proposed_fixes/C09-*.md:
+  roundtrip:str-of-xor-amo                          str() of ^^ / ?? groups does not parse back
+  eval:meaning:single-member-amo:{parse,evaluate}   "?? ( a )" collapsed to "a"
+  reject:accepted:arrow-before-paren                "uri -> )" takes the parenthesis as file name
+  roundtrip:depset-eq-false:equal-members-hash-differently   atom hash vs eq (fixed by C02-atom-hash)
 """
 from hypothesis import strategies as st
 
@@ -218,10 +229,13 @@ def check_valid(ctx, case):
     # ---- evaluation ----------------------------------------------------------------------------
     negleaf = flavor == "required_use"
     seen = set()
+    emptiable = [nd for nd, _, _ in D.walk(tree) if nd[0] == "any" and D.only_conds_below(nd)]
 
     def evaluate():
         for F in D.subsets(flags):
             exp_b, exp_a = D.reduce_tree(tree, F, flavor)
+            if emptiable and any(not D.reduce_tree([nd], F, flavor)[0] for nd in emptiable):
+                ctx.count("anyof_emptied_points")
             ev = d0.evaluate_depset(sorted(F))
             problems = []
             got = E.to_tree(ev, flavor, problems)
@@ -339,22 +353,19 @@ def _strategy(flavors):
 
 
 def plan(tier, seed):
-    tasks = []
-    per = {"quick": (900, 500), "thorough": (22000, 9000)}[tier]
-    groups = [["dep"], ["dep"], ["required_use"], ["required_use"], ["license"], ["restrict", "src_uri", "src_uri_df"]]
-    reps = {"quick": 2, "thorough": 3}[tier]
-    for r in range(reps):
-        for g in groups:
-            tasks.append({"task": "gen", "flavors": g, "valid": per[0], "corrupt": per[1]})
-    return tasks
+    # (flavours, share): dependency atoms and REQUIRED_USE carry the operators the property is about
+    groups = [["dep"], ["dep"], ["required_use"], ["required_use"], ["license"], ["license", "required_use"],
+              ["restrict", "src_uri"], ["src_uri_df", "src_uri"]]
+    valid, corrupt, reps = {"quick": (1600, 700, 1), "thorough": (100000, 40000, 2)}[tier]
+    return [{"task": "gen", "flavors": g, "valid": valid, "corrupt": corrupt} for _ in range(reps) for g in groups]
 
 
 def run_task(ctx, task, **kw):
     if task != "gen":
         raise core.HarnessError(f"unknown task {task}")
     sv, sc = _strategy(kw["flavors"])
-    core.hyp_run(ctx, sv, lambda c: check_valid(ctx, c), kw["valid"], chunk=300)
     core.hyp_run(ctx, sc, lambda c: check_corrupt(ctx, c), kw["corrupt"], chunk=300, seed_salt=1)
+    core.hyp_run(ctx, sv, lambda c: check_valid(ctx, c), kw["valid"], chunk=300)
 
 
 def replay(ctx, case):
